@@ -50,13 +50,90 @@ def turn_of(rec):
     return {"lines": lines, "choices": choices, "status": status}
 
 
-def cont_of(rec):
+def save_value(v):
+    """a value as written in a save document -> the form of spec/InkValue"""
+    if isinstance(v, bool):
+        return {"t": "bool", "v": v}
+    if isinstance(v, int):
+        return {"t": "int", "v": v}
+    if isinstance(v, str) and v.startswith("^"):
+        return {"t": "str", "v": chars(v[1:])}
+    return None
+
+
+def save_view(save, flows):
+    """the part of a real save document that spec/InkLook.tla SaveView describes; None when something in it has no
+    counterpart (floats, lists, divert targets)"""
+    try:
+        fl = save["flows"][save["currentFlowName"]]
+        vs = {}
+        for k, v in (save.get("variablesState") or {}).items():
+            sv = save_value(v)
+            if sv is None:
+                return None
+            vs[k] = sv
+        threads = []
+        for th in fl["callstack"]["threads"]:
+            els = []
+            for el in th["callstack"]:
+                temps = {}
+                for k, v in (el.get("temp") or {}).items():
+                    if k.startswith("$"):
+                        continue
+                    sv = save_value(v)
+                    if sv is None:
+                        return None
+                    temps[k] = sv
+                cp = el.get("cPath")
+                knot = cp.split(".")[0] if cp else ""
+                els.append({"type": 1 if el.get("type") == 1 else 0, "temps": temps, "knot": knot if knot in flows else ""})
+            threads.append(els)
+        stream, tag = [], None
+        for it in fl.get("outputStream") or []:
+            if it == "#":
+                tag = []
+            elif it == "/#":
+                stream.append({"k": "tag", "v": tag})
+                tag = None
+            elif it == "\n":
+                stream.append({"k": "nl"})
+            elif it == "<>":
+                stream.append({"k": "glue"})
+            elif isinstance(it, str) and it.startswith("^"):
+                if tag is not None:
+                    tag += chars(it[1:])
+                else:
+                    stream.append({"k": "t", "v": chars(it[1:])})
+            else:
+                return None
+        merged = []
+        for it in stream:
+            if it["k"] == "t" and merged and merged[-1]["k"] == "t":
+                merged[-1]["v"] = merged[-1]["v"] + it["v"]
+            elif it["k"] == "tag":
+                merged.append({"k": "tag", "v": chars(" ".join("".join(chr(c) for c in it["v"]).split()))})
+            else:
+                merged.append(dict(it))
+        for it in merged:
+            if it["k"] == "t":
+                it["v"] = chars(" ".join("".join(chr(c) for c in it["v"]).split()))
+        stream = [it for it in merged if it["k"] != "t" or it["v"]]
+        return {"turn": save.get("turnIdx"), "vars": vs,
+                "counts": {k: v for k, v in (save.get("visitCounts") or {}).items() if k in flows},
+                "threads": threads, "stream": stream,
+                "choices": [{"text": chars(c["text"]), "tags": [chars(t) for t in c.get("tags", [])]} for c in fl.get("currentChoices", [])]}
+    except (KeyError, TypeError, AttributeError):
+        return None
+
+
+def cont_of(rec, flows=()):
     """one cont of the real engine, as a host sees it"""
     o = rec.get("obs") or {}
     vs = {k: value_json(v) for k, v in (o.get("vars") or {}).items() if value_json(v)}
+    sv = save_view(o["save"], flows) if isinstance(o.get("save"), dict) and "flows" in o["save"] else None
     return {"text": chars(rec.get("val") or ""), "tags": [chars(x) for x in (o.get("tags") or [])], "can": bool(o.get("can")),
             "choices": [chars(c["text"]) for c in o.get("choices", [])], "vars": vs or {"_": {"t": "int", "v": 0}},
-            "err": rec.get("res") != "ok" or bool(o.get("errors"))}
+            "err": rec.get("res") != "ok" or bool(o.get("errors")), "sv": sv if sv is not None else []}
 
 
 def value_json(v):
@@ -70,7 +147,7 @@ def value_json(v):
 def build_cases(progs, wd, depth, max_paths, per_prog, flavour="debug"):
     ps = [dict(id="ast-%d" % p["seed"], src=p["ink"], ast=p) for p in progs]
     exs, counts = common.explore(ps, wd, depth=depth, max_paths=max_paths, seed=7, fuel=20000,
-                                 obs={"save": False, "vars": True, "visits": True}, name="c01", flavour=flavour, turns=False)
+                                 obs={"save": True, "vars": True, "visits": True}, name="c01", flavour=flavour, turns=False)
     cases, skipped = [], dict(counts)
     skipped["compile_error_list"] = []
     by_id = {e.prog["id"]: e for e in exs}
@@ -96,7 +173,7 @@ def build_cases(progs, wd, depth, max_paths, per_prog, flavour="debug"):
                 if not trs:
                     break
                 turns.append(turn_of(trs[-1]))
-                conts.append([cont_of(r) for r in new if r.get("op") == "cont"])
+                conts.append([cont_of(r, set(p["ast"]["prog"]["knots"])) for r in new if r.get("op") == "cont"])
             last = [r for r in e.paths[t]["recs"] if r.get("obs")][-1]["obs"]
             fvars = {k: value_json(v) for k, v in (last.get("vars") or {}).items() if value_json(v)}
             fcounts = {k: v for k, v in (last.get("visits") or {}).items() if k in p["ast"]["knots"] and isinstance(v, int)}
@@ -170,7 +247,7 @@ def run(tier, seed, features=None, n=None, debug=False):
         focus = {4: "bursts", 5: "nested"}.get(i % 6) if r else None
         progs.append(gen_ast.generate(seed * 1000003 + i, f, knots=2 + i % 3, focus=focus))
     all_cases, all_mism, states, trans = [], [], 0, 0
-    look_cases = look_conts = 0
+    look_cases = look_conts = look_saves = 0
     skipped_total = {}
     srcs = {}
     chunk = 300
@@ -199,6 +276,7 @@ def run(tier, seed, features=None, n=None, debug=False):
         trans += res2["states"]
         look_cases += len(lcases)
         look_conts += sum(len(t) for c in lcases for t in c["conts"])
+        look_saves += sum(1 for c in lcases for t in c["conts"] for r in t if r["sv"])
         mism += mism2
         bycase = {c["case"]: c for c in cases}
         for m in mism:
@@ -239,7 +317,7 @@ def run(tier, seed, features=None, n=None, debug=False):
               for c in all_cases[:2]]
     cov = dict(states=max(1, states), transitions=max(1, trans), traces_validated_against_impl=len(all_cases),
                evaluations=len(all_cases), distinct_nontrivial=distinct, turns_compared=turns, programs=len(progs),
-               lookahead_cases=look_cases, conts_compared=look_conts,
+               lookahead_cases=look_cases, conts_compared=look_conts, save_documents_compared=look_saves,
                explore=skipped_total, samples=sample, features=sorted(feats),
                rule="generated programs (abstract syntax tree + rendered source) over the fragment named in `features`; "
                     "every choice path to the exploration depth, the maximal ones compared; a case is one (program, path); "
